@@ -12,7 +12,7 @@ HALF = 0.125
 FEATURES = ('windows', 'timeouts', 'nesting', 'forever', 'failures',
             'critical', 'never', 'slow_cleanup', 'slow_handlers', 'stalls',
             'verbose', 'coro', 'zero_jobs', 'sd_none', 'never_handler',
-            'inspect')
+            'inspect', 'cleanup_exc')
 
 # probability that a feature is enabled at all in a run
 BASE_PROFILE = {
@@ -20,6 +20,7 @@ BASE_PROFILE = {
     'failures': 0.45, 'critical': 0.35, 'never': 0.3, 'slow_cleanup': 0.25,
     'slow_handlers': 0.3, 'stalls': 0.2, 'verbose': 0.15, 'coro': 0.4,
     'zero_jobs': 0.35, 'sd_none': 0.2, 'never_handler': 0.1, 'inspect': 0.2,
+    'cleanup_exc': 0.15,
     'max_jobs': 14, 'max_depth': 3, 'pure_top': 0.3,
 }
 
@@ -91,6 +92,8 @@ class _Gen:
             node["cleanup"] = rng.choice(
                 ([["sleep", 0.25]], [["sleep", 0.5]], [["yield", 2]],
                  [["sleep", rng.choice(GRID)]]))
+        if feat['cleanup_exc'] and rng.random() < 0.3:
+            node["cleanup_outcome"] = "exc"
         if feat['slow_handlers'] and rng.random() < 0.5:
             node["handler"] = rng.choice(
                 ([["sleep", 0.25]], [["sleep", 0.5]], [["sleep", 1.0]],
